@@ -1,5 +1,11 @@
 #define _GNU_SOURCE
 #include "vx.h"
+#ifdef VX_COV
+extern int __llvm_profile_write_file(void);
+#define COV_DUMP() ((void)__llvm_profile_write_file())
+#else
+#define COV_DUMP() ((void)0)
+#endif
 #include <stdarg.h>
 #include <unistd.h>
 #include <signal.h>
@@ -456,7 +462,7 @@ void vx_case_end(void) {
   /* a worker that carries leaked headers from an earlier (already reported) case may need an extra header block: not this case's fault */
   if (aw_live != 0 && !(g_hdr0 > 0)) { vx_fail("leak", "allocator-balance", "%ld block(s) still live after the case (temporaries not released)", aw_live); }
   w->in_case = 0; g_in_case = 0;
-  if (g_replay >= 0) { w->total = g_counter; w->done = 1; fflush(NULL); _exit(0); }
+  if (g_replay >= 0) { w->total = g_counter; w->done = 1; fflush(NULL); COV_DUMP(); _exit(0); }
 }
 void vx_input(uint64_t digest, int nontrivial) {
   if (!nontrivial || !digest) return;
@@ -534,7 +540,7 @@ static pid_t spawn(int wid, int have_resume, uint64_t resume_after) {
     prop_enumerate();
     S->w[wid].total = g_counter; S->w[wid].done = 1;
     fflush(NULL);
-    _exit(0);
+    COV_DUMP(); _exit(0);
   }
   return p;
 }
@@ -639,7 +645,7 @@ vx_fate vx_fork_call(uint64_t (*fn)(void *), void *arg, int timeout_s) {
     uint64_t v = fn(arg);
     FC->ret = v; FC->nalloc = aw_count; FC->site = aw_failed_site; FC->returned = 1;
     fflush(NULL);
-    _exit(0);
+    COV_DUMP(); _exit(0);
   }
   close(pfd[1]);
   /* read stderr (bounded) while waiting */
